@@ -39,6 +39,7 @@ type Result struct {
 	Exhaustive  bool                   `json:"exhaustive"`
 	TracesVsImpl int                   `json:"traces_validated_against_impl"`
 	seen        map[string]bool
+	perSig      map[string]int
 }
 
 func newResult(prop, tier string, seed int64) *Result {
@@ -91,7 +92,13 @@ func (r *Result) Sample(s interface{}) {
 func (r *Result) Violate(kind, sig string, c interface{}, note string) {
 	r.mu.Lock()
 	defer r.mu.Unlock()
-	if len(r.Violations) < 40 {
+	// keep a few cases per signature so that one frequent (possibly known) finding cannot crowd
+	// out a different one
+	if r.perSig == nil {
+		r.perSig = map[string]int{}
+	}
+	r.perSig[sig]++
+	if r.perSig[sig] <= 3 && len(r.Violations) < 400 {
 		r.Violations = append(r.Violations, Violation{kind, sig, c, note})
 	}
 }
